@@ -15,7 +15,7 @@ REQUIRED_THEOREMS = [
     "Cv.C11.matrix_cholesky_eq_slice", "Cv.C11.matrix_forward_eq_slice", "Cv.C11.matrix_backward_eq_slice", "Cv.C11.cholesky_rejects_indefinite_witness",
 ]
 RULE = ("orders 1..32 x {SPD to cond 1e8, symmetric indefinite with positive diagonal (float and integer), dense, "
-        "integer, singular, rank-deficient, zero leading pivot, permutation matrices, triangular} x "
+        "adversarial pivot columns, sparse SPD (arrowhead, banded, block), integer, singular, rank-deficient, zero leading pivot, permutation matrices, triangular} x "
         "{lu, cholesky, det, lu_det, triangular solves, cholesky_solve, lu_solve} in slice and Matrix form, "
         "plus permutation vectors up to length 40 for ipiv_parity; non-trivial = distinct (op, class, order)")
 EXHAUSTIVE = {"quick": False, "thorough": False}
@@ -94,10 +94,11 @@ def g_upper(rng, n):
 
 LU_CLASSES = {
     "dense": H.g_dense, "int": H.g_int, "singular": g_singular, "rankdef": g_rankdef, "zerolead": g_zerolead,
-    "perm": g_perm, "tri": H.g_tri, "tinypivot": H.g_tinypivot, "graded": H.g_graded, "diagdom": H.g_diagdom,
+    "advpivot": H.g_advpivot, "perm": g_perm, "tri": H.g_tri, "tinypivot": H.g_tinypivot, "graded": H.g_graded, "diagdom": H.g_diagdom,
     "spd": H.g_spd,
 }
 CHOL_CLASSES = {
+    "arrow_spd": H.g_arrow_spd, "band_spd": H.g_band_spd, "block_spd": H.g_block_spd,
     "spd": H.g_spd, "graded_spd": lambda r, n: H.g_graded(r, n, 8, True), "diagdom_sym": lambda r, n: H.g_diagdom(r, n, True),
     "symindef": H.g_symindef, "symindef_int": H.g_symindef_int, "dense": H.g_dense,
     "spd_int": lambda r, n: spd_int(r, n),
@@ -132,7 +133,9 @@ def gen(rng, tier):
         if it < 64:
             n = 1 + it % 32
         cls = lu_names[it % len(lu_names)]
-        A = LU_CLASSES[cls](rng, n)
+        na = rng.randint(3, 16) if cls == "advpivot" else n
+        A = LU_CLASSES[cls](rng, na)
+        n0, n = n, na
         cnt("lu:" + cls)
         cnt("order:%d" % n)
         lines.append("# lu cls=%s n=%d" % (cls, n))
@@ -141,6 +144,10 @@ def gen(rng, tier):
         if it % 4 == 0:
             lines.append("lu " + vec(A))
             lines.append("mlu %d %d %s" % (n, n, vec(A)))
+        if cls == "advpivot":
+            lines.append("mlu %d %d %s" % (n, n, vec(A)))
+            lines.append("lu " + vec(A))
+        n = n0
         cls2 = ch_names[it % len(ch_names)]
         S = CHOL_CLASSES[cls2](rng, n)
         cnt("chol:" + cls2)
@@ -370,6 +377,8 @@ def oracle(lines, impl):
                 if bl[0] != bl[2] or bl[1] != bl[3]:
                     fails.append(Failure(i, key, "slice lu and Matrix::lu return different factors or pivots (order %d)" % n))
                 check_lu(fails, i, key, A, n, bl[0], bl[1])
+                if bl[0] != bl[2] or bl[1] != bl[3]:
+                    check_lu(fails, i, key, A, n, bl[2], bl[3])   # judge the Matrix factors on their own too
             elif op == "lu":
                 bl = blocks(toks)
                 check_lu(fails, i, key, A, n, bl[0], bl[1])
